@@ -56,15 +56,19 @@ package resp
 //@   loop 0:
 //@     invariant sameArray(bNext, buf) && off(bNext) >= off(buf) && off(bNext) + len(bNext) == off(buf) + len(buf)
 
+//@ ghost var rphChunked bool
 //@ func parseHeaders(h, buf) n, err
-//@   props C03
+//@   props C03, C11
 //@   requires h != nil
-//@   modifies *
+//@   modifies *, rphChunked
+//@   ghostset-at-entry rphChunked = false
+//@   assert @C11 before InitContentLengthWithValue!: arg1 == -1 || !rphChunked
+//@   ghostset after InitContentLengthWithValue!: rphChunked = rphChunked || arg1 == -1
 //@   ensures h.disableNormalizing == old(h.disableNormalizing)
 //@   ghostset-at-entry parseArr = arr(buf)
 //@   ensures err == nil ==> 0 <= n && n <= len(buf)
 //@   loop 0:
-//@     invariant hsInv(s) && s.HLen + len(s.B) <= len(buf) && arr(s.B) == parseArr && len(s.B) <= len(buf) && h.disableNormalizing == old(h.disableNormalizing)
+//@     invariant hsInv(s) && s.HLen + len(s.B) <= len(buf) && arr(s.B) == parseArr && len(s.B) <= len(buf) && h.disableNormalizing == old(h.disableNormalizing) && (rphChunked ==> h.contentLength == -1)
 
 // C02: the header scanner runs only after the completeness check succeeded.
 //@ func parse(h, buf) n, err
